@@ -223,6 +223,18 @@ func runRecovery(fields []string) string {
 		if err == nil {
 			_, err = f.Handle(http.MethodGet, "/r/{id}", doPanic)
 		}
+	case "routets":
+		// the route is reached by ignoring the trailing slash (/r/{id}/ requested as /r/42)
+		f, err = fox.New(fox.WithMiddleware(recov), fox.WithIgnoreTrailingSlash(true))
+		if err == nil {
+			_, err = f.Handle(http.MethodGet, "/r/{id}/", doPanic)
+		}
+	case "routehost":
+		// a hostname route
+		f, err = fox.New(fox.WithMiddleware(recov))
+		if err == nil {
+			_, err = f.Handle(http.MethodGet, "{sub}.com/r/{id}", doPanic)
+		}
 	case "mw":
 		inner := func(next fox.HandlerFunc) fox.HandlerFunc {
 			return func(c fox.Context) {
@@ -375,6 +387,13 @@ func runRecoveryTxn(fields []string) string {
 				_ = txn.Len()
 				continue
 			}
+			if kind == "updates-s" {
+				// new siblings that sort before the existing children of a node grown one child at a time
+				if _, err := txn.Handle(http.MethodGet, "/seed/"+string(rune('0'+k%10))+itoa(k), okHandler); err != nil {
+					return err
+				}
+				continue
+			}
 			if strings.HasPrefix(kind, "updates-t") {
 				// the transaction begins with a Truncate (of GET, of everything, of a method without routes and GET)
 				if k == 0 {
@@ -431,7 +450,7 @@ func runRecoveryTxn(fields []string) string {
 		}()
 		var err error
 		switch kind {
-		case "updates", "updates-t1", "updates-t2", "updates-t3":
+		case "updates", "updates-t1", "updates-t2", "updates-t3", "updates-s":
 			err = f.Updates(body)
 		case "view":
 			err = f.View(body)
@@ -521,7 +540,7 @@ func genRecovery(r *Rng, tier string, n int, emit func(string)) {
 	k := 0
 	for _, v := range recValues {
 		for _, p := range []string{"N", "H", "B", "F", "S", "R"} {
-			for _, s := range []string{"route", "mw", "noroute"} {
+			for _, s := range []string{"route", "mw", "noroute", "routets", "routehost"} {
 				if emitted >= n*2/3 {
 					break
 				}
@@ -540,7 +559,7 @@ func genRecovery(r *Rng, tier string, n int, emit func(string)) {
 		}
 	}
 	// transactions: a panic / an error after every prefix, and completion
-	for _, kind := range []string{"updates", "view", "updates-t1", "updates-t2", "updates-t3"} {
+	for _, kind := range []string{"updates", "view", "updates-t1", "updates-t2", "updates-t3", "updates-s"} {
 		for nops := 0; nops <= 5; nops++ {
 			for pos := 0; pos <= nops; pos++ {
 				emit(fmt.Sprintf("recovery\tT\t%s\t%s\t%d\tp%d", kind, Pick(r, recValues), nops, pos))
@@ -560,7 +579,7 @@ func genRecovery(r *Rng, tier string, n int, emit func(string)) {
 	for emitted < n {
 		k++
 		emit("recovery\tP\t" + Pick(r, recValues) + "\t" + Pick(r, []string{"N", "H", "B", "F", "S", "R"}) + "\t" +
-			Pick(r, []string{"route", "mw", "noroute"}) + "\t" + recHeaders(r, k))
+			Pick(r, []string{"route", "mw", "noroute", "routets", "routehost"}) + "\t" + recHeaders(r, k))
 		emitted++
 	}
 }
